@@ -142,6 +142,7 @@ where
     VA: BaseAllocator<St::GuaranteedAllocated>,
 {
     let Some((x, y)) = two::<St>() else { return };
+    let (x, y) = (core::mem::ManuallyDrop::new(x), core::mem::ManuallyDrop::new(y));
     // a request that fits whatever the filler was: u8
     let v: u8 = kani::any();
     let bx = x.alloc(v);
@@ -153,8 +154,6 @@ where
     assert!(*bx == v && *by == v, "C17: twins stored different values");
     let (ax, ay) = (addr(bx.into_raw().cast()), addr(by.into_raw().cast()));
     assert_same(&observe(&x, Some(ax)), &observe(&y, Some(ay)));
-    core::mem::forget(x);
-    core::mem::forget(y);
     kani::cover!(true, "END: harness ran to completion");
 }
 
